@@ -845,7 +845,7 @@ func (z *ZodStruct[T, R]) parseFieldWithSchema(fieldValue any, fieldSchema any, 
 
 	// Call Parse(fieldValue, ctx)
 	args := []reflect.Value{
-		reflect.ValueOf(fieldValue),
+		reflectArg(fieldValue, parseMethod.Type()),
 		reflect.ValueOf(ctx),
 	}
 
